@@ -22,7 +22,7 @@ pub const META: PropMeta = PropMeta {
     assumptions: &[
         "hook events of types_equal are used for diagnosis text and coverage counters only; verdicts come from the emitted module",
     ],
-    required_counters: &["hook[te:query]", "hook[gen:occupied]", "members_related", "raw[DuplicateTypePath]", "raw[ok]"],
+    required_counters: &["hook[te:query]", "hook[gen:occupied]", "members_related", "raw[DuplicateTypePath]", "raw[ok]", "rendering_switch_verdicts_compared"],
     floor: (3000, 100_000),
     shards: (16, 16),
 };
@@ -156,6 +156,27 @@ pub fn judge_case(ctx: &mut Ctx, c: &FamCase) -> bool {
             decided = true;
         }
         Err(e) => ctx.count(&format!("raw[{e}]"), 1),
+    }
+    // whether same-path entries are one shape is a statement about the registry: the verdict (Ok /
+    // DuplicateTypePath) must not depend on rendering switches - with codec attributes and docs
+    // off, variant indices and compact markers are not even written, yet they are shape
+    if has_family {
+        let mut bare = d.clone();
+        bare.codec_attrs = false;
+        bare.docs = false;
+        let (gen_bare, _) = generate_model(c.reg, &bare);
+        let verdict = |g: &Result<Generated, String>| match g {
+            Ok(_) => "ok".to_string(),
+            Err(e) => e.clone(),
+        };
+        ctx.count("rendering_switch_verdicts_compared", 1);
+        if verdict(&gen) != verdict(&gen_bare) {
+            ctx.violation(
+                "C03:verdict-depends-on-rendering-switches",
+                format!("with codec attributes and docs on generation gives `{}`, with both off `{}`; case {}", verdict(&gen), verdict(&gen_bare), c.label),
+                json!({"kind": "registry", "registry": reg::to_json(c.reg), "noncf": c.noncf, "label": c.label, "source": c.source}),
+            );
+        }
     }
     // after de-duplication
     let mut r2 = c.reg.clone();
